@@ -76,7 +76,7 @@ def seek_ownership_rule(ctx, rule):
         ctx.ob(rule, 'writer.write_to_file:footer_start-is-the-position-of-the-old-footer',
                len(fsd) == 1 and norm(fsd[0].value) in ('%s.seek(-(head_size + 8), 2)' % fvar, '%s.tell()' % fvar),
                norm(fsd[0]), wr.loc(fsd[0]))
-    mode = [s for s in repo['writer'].func('write_simple').body if isinstance(s, ast.Assign) and norm(s.targets[0]) == 'mode']
+    mode = [s for s in walk_no_nested(repo['writer'].func('write_simple')) if isinstance(s, ast.Assign) and norm(s.targets[0]) == 'mode']
     ctx.ob(rule, 'writer.write_simple:mode-is-rb+-only-when-appending',
            len(mode) == 1 and norm(mode[0].value) == "'rb+' if append else 'wb'", norm(mode[0]) if mode else '', wr.loc(f))
 
